@@ -3018,7 +3018,7 @@ primary_expression
         else if (!IS_UNDEFINED($3.value.integer) && $3.value.integer >= 64)
           $$.value.integer = 0;
         else
-          $$.value.integer = OPERATION(<<, $1.value.integer, $3.value.integer);
+          $$.value.integer = OPERATION(>>, $1.value.integer, $3.value.integer);
 
         $$.type = EXPRESSION_TYPE_INTEGER;
 
